@@ -139,7 +139,7 @@ class _Tok(str):
     """an opaque parameter value: stands for every value the user may pass"""
 
 
-ASPECTS = {"names": ("sample_name", "feature_name"), "solver": ("solver", "random_state", "solver_kwargs", "compute"), "deferral": ("compute",), "rescaling": ("standardize", "use_coslat"),
+ASPECTS = {"names": ("sample_name", "feature_name"), "solver": ("solver", "random_state", "solver_kwargs"), "deferral": ("compute",), "rescaling": ("standardize", "use_coslat"),
            "preprocessing": ("n_modes", "center", "standardize", "use_coslat", "check_nans")}
 
 
